@@ -76,7 +76,10 @@ def _ops(old: str, new: str):
     )
     req = st.builds(lambda n, c, t: ["rx", f"{n};{c};2;0;{t};\n"], node, child, st.sampled_from((0, 2)))
     wake = st.builds(lambda n, t: ["rx", f"{n};255;3;0;{t};5\n"], node, st.sampled_from([t for t in (22, 32) if t in internal_types] or [18 if 18 in internal_types else 9]))
-    return st.lists(gen.weighted((6, gen.with_ack(lines).map(lambda l: ["rx", l])), (3, send), (1, gen.with_ack(req.map(lambda o: o[1])).map(lambda l: ["rx", l])), (1, wake)), min_size=8, max_size=25)
+    fault = st.just(["fault_next_write"])
+    stranger = st.builds(lambda p: ["rx", f"9;255;3;0;22;{p}\n"], st.sampled_from(("5", "abc", "", "7")))
+    extra = [(1, fault)] + ([(1, stranger)] if (new == "2.2" and not (old.startswith("1"))) else [])
+    return st.lists(gen.weighted(*extra, (6, gen.with_ack(lines).map(lambda l: ["rx", l])), (3, send), (1, gen.with_ack(req.map(lambda o: o[1])).map(lambda l: ["rx", l])), (1, wake)), min_size=8, max_size=25)
 
 
 @st.composite
@@ -142,6 +145,10 @@ def run_case(case: dict) -> Outcome:
                 if any(o.startswith("missing") for o in pred.outcomes):
                     info["skipped"] += 1
                     continue
+            if op[0] == "fault_next_write":
+                for _gateway, transport in gateways:
+                    transport.fail_attempts = {len(transport.attempts)}  # the next write attempt of each gateway fails
+                continue
             results = []
             for gateway, transport in gateways:
                 transport.step = idx
